@@ -31,4 +31,15 @@ THEOREM KnownFindingWitness ==
 THEOREM Reachable ==
     \A base \in Nat : base >= 1 => ThresholdOf(base) <= base
   BY SMT DEF ThresholdOf
+\* with fewer than a third of the base faulty, two signer sets meeting the threshold share an HONEST key:
+\* their intersection (>= 2t - k) is larger than the number of faulty keys
+THEOREM HonestIntersection ==
+    \A base \in Nat : \A k \in Nat : \A f \in Nat :
+        (k <= base /\ 3 * f < base) => 2 * ThresholdOf(base) - k > f
+  BY SMT DEF ThresholdOf
+
+\* the non-final threshold (which may count a long-pledging node: base + 1) is never below the final one
+THEOREM ThresholdMonotone ==
+    \A a \in Nat : \A b \in Nat : a <= b => ThresholdOf(a) <= ThresholdOf(b)
+  BY SMT DEF ThresholdOf
 =============================================================================
